@@ -547,8 +547,19 @@ def incremental(ctx: Ctx):
             keeps_old = nf.strip(b).op == "cell0" and nf.strip(b).args[1] == "max_subtour_length"
             cand_cells = vg.cells_of(pre)
             pre_reset = not _has_agent_factor(pre)
-            okm = same_cand and keeps_old and {"current_length", "locs", "action", "current_node"} <= cand_cells and pre_reset
-            why = f"where({c[0].show(2)} > 0, cand, old): cand reads {sorted(cand_cells)}, before the per-agent reset: {pre_reset}"
+            # the candidate is the length INCLUDING the closing leg (current node -> depot) of the step that finishes the instance
+            def is_depot_loc(x):
+                x0 = nf.strip(x)
+                return x0.op == "sub" and x0.args[1].op == "tuple" and any(vg.is_const(c_, 0) for c_ in x0.args[1].args) and nf.strip(x0.args[0]).op == "cell0" and nf.strip(x0.args[0]).args[1] == "locs"
+
+            def is_action_loc(x):
+                x0 = nf.strip(x)
+                return (nf._fn(x0) or "").endswith(":gather_by_index") and len(x0.args) >= 3 and nf.strip(x0.args[2]).op == "cell0" and nf.strip(x0.args[2]).args[1] == "action"
+            closing = [leg for leg, g_ in _legs(pre) if nf._fn(leg) in nf.DIST_FN and len(leg.args) >= 3 and
+                       ((is_depot_loc(leg.args[1]) and is_action_loc(leg.args[2])) or (is_depot_loc(leg.args[2]) and is_action_loc(leg.args[1])))]
+            has_closing = bool(closing)
+            okm = same_cand and keeps_old and {"current_length", "locs", "action", "current_node"} <= cand_cells and pre_reset and has_closing
+            why = f"where({c[0].show(2)} > 0, cand, old): cand reads {sorted(cand_cells)}, before the per-agent reset: {pre_reset}; cand includes the closing leg current node -> depot: {has_closing}"
     ctx.ob("C03.d", "MTSPEnv._step:max_subtour_length", okm, sl.where, why, construct="MTSPEnv._step:max_subtour_length")
     pc = nf.poly(cur)
     okc = bool(pc.terms) and all(_mono_has_agent_factor(fs) for c, fs in pc.monos()) and {"current_length", "locs", "action", "current_node", "agent_idx"} <= vg.cells_of(cur)
@@ -668,6 +679,38 @@ def incremental(ctx: Ctx):
         ctx.ob("C03.d", f"{cname}._step:stepwise-reward", ok, sl.where, why, construct=f"{cname}._step:stepwise-reward")
 
 
+def flp_min_axis(ctx: Ctx):
+    """C03.e FLP: `min over the chosen facilities` is a reduction over axis 1 of a [B, k, n] tensor.  gather_by_index drops the
+    gathered axis when exactly one index is gathered (k = 1), so the operand's rank must be fixed explicitly (view / reshape to
+    three axes, or squeeze=False) before the axis-1 minimum -- otherwise a single-facility instance takes the minimum over locations."""
+    from .. import batchaxis as ba
+    from ..envs import generator_slot
+    env = EnvA(ctx.repo, T.ALL_ENVS["FLPEnv"], "FLPEnv")
+    sl = env.slot("_get_reward")
+    ctx.fn(sl.fi)
+    rs = env.slot("_reset")
+    ranks = ba.RankFacts()
+    ranks.learn_from_reset(rs.td)
+    g, gsl = generator_slot(ctx.repo, env.cls)
+    if gsl is not None and gsl.td is not None:
+        gr = ba.RankFacts()
+        gr.learn_from_reset(gsl.td)
+        for k, v in rs.td.cells.items():
+            if k not in ranks.cell_rank and gr.rank(v) is not None:
+                ranks.cell_rank[k] = gr.rank(v)
+    ret = sl.fr.ret
+    mins = [n for n in vg.walk(ret) if n.op == "meth" and n.args[1] == "min" and nf.axis_arg(n) is not None] if isinstance(ret, vg.S) else []
+    ok, why = False, f"{len(mins)} axis-wise minimum(s) in the reward"
+    if len(mins) == 1:
+        r = ranks.rank(mins[0].args[0])
+        ax = nf.axis_arg(mins[0])
+        ok = r == 3 and vg.is_const(ax, 1)
+        why = f"min over axis {vg.show(ax, 1)} of an operand of " + (f"statically known rank {r}" if r is not None else
+                                                                     "UNKNOWN rank: it comes out of gather_by_index with a [B, k] index, which has rank 3 for k > 1 and rank 2 for k = 1 "
+                                                                     "(the gathered axis is squeezed away), so with one facility the minimum runs over the locations")
+    ctx.ob("C03.e", "FLPEnv._get_reward:min-over-facilities", ok, sl.where, why, construct="FLPEnv._get_reward:min-axis-rank")
+
+
 def _is_agent_cmp(a):
     a1 = nf.strip(a, bool_ctx=True)
     # (agent_idx + [action == depot]) == agent_idx  normalises to  [action == depot] == 0
@@ -741,6 +784,7 @@ def run(ctx: Ctx):
                 seen.add(val.id)
                 check_terms(ctx, env, sl, sel, val, terms)
     incremental(ctx)
+    flp_min_axis(ctx)
 
 
 def run_thorough(ctx: Ctx):
